@@ -163,8 +163,13 @@ func (a *archiver) worker(workerID string) {
 			return
 		case <-controlChans.PauseCh:
 			logger.Debug("received pause event")
-			controlChans.ResumeCh <- struct{}{}
-			logger.Debug("received resume event")
+			select {
+			case controlChans.ResumeCh <- struct{}{}:
+				logger.Debug("received resume event")
+			case <-a.ctx.Done():
+				logger.Debug("shutting down while paused")
+				return
+			}
 		case seed, ok := <-a.inputCh:
 			if ok {
 				logger.Debug("received seed", "seed", seed.GetShortID(), "depth", seed.GetDepth(), "hops", seed.GetURL().GetHops())
